@@ -150,6 +150,9 @@ class LetSubstitution:
         if len(node) <= 2:
             return []
         for var in node[1]:
+            if var[0] == var[1]:
+                # (let ((x x)) ..): substituting x by x changes nothing
+                continue
             if any(n == var[0] for n in nodes.dfs(node[2])):
                 subs = nodes.substitute(node[2], {var[0]: var[1]})
                 yield Simplification({node.id: Node(node[0], node[1], subs)},
